@@ -31,11 +31,45 @@ pub struct Spec {
 	/// (owner, name, descriptor) → new name
 	pub fields: BTreeMap<(String, String, String), String>,
 	pub methods: BTreeMap<(String, String, String), String>,
+	/// error-path exploration: the case is run once per question the code under test puts, with the remapper failing
+	/// at that question (table engine only; see `failing`)
+	pub failing: bool,
+}
+
+pub mod failing {
+	//! A table remapper can be told to fail at its n-th primitive question (per thread: `dukebox::remap::remap`
+	//! runs on the thread that calls it).
+	use std::cell::Cell;
+	thread_local! {
+		static QUESTIONS: Cell<u64> = const { Cell::new(0) };
+		static FAIL_AT: Cell<Option<u64>> = const { Cell::new(None) };
+		static HIT: Cell<bool> = const { Cell::new(false) };
+	}
+	/// starts a run: the question counter is reset, the remapper fails at question `at`
+	pub fn arm(at: Option<u64>) {
+		QUESTIONS.set(0);
+		FAIL_AT.set(at);
+		HIT.set(false);
+	}
+	/// `(questions put since `arm`, whether the failing question was put)`; disarms
+	pub fn disarm() -> (u64, bool) {
+		FAIL_AT.set(None);
+		(QUESTIONS.get(), HIT.get())
+	}
+	pub fn tick(what: &str) -> anyhow::Result<()> {
+		let n = QUESTIONS.get();
+		QUESTIONS.set(n + 1);
+		if FAIL_AT.get() == Some(n) {
+			HIT.set(true);
+			anyhow::bail!("the remapper has no answer for question {n} ({what}): its source could not be read");
+		}
+		Ok(())
+	}
 }
 
 impl Spec {
 	pub fn new(name: &str, engine: Engine) -> Spec {
-		Spec { name: name.to_owned(), engine, classes: BTreeMap::new(), fields: BTreeMap::new(), methods: BTreeMap::new() }
+		Spec { name: name.to_owned(), engine, classes: BTreeMap::new(), fields: BTreeMap::new(), methods: BTreeMap::new(), failing: false }
 	}
 	pub fn class(&mut self, from: &str, to: &str) -> &mut Spec {
 		self.classes.insert(from.to_owned(), Some(to.to_owned()));
@@ -116,6 +150,7 @@ impl Table {
 
 impl ARemapper for Table {
 	fn map_class_fail(&self, class: &ObjClassNameSlice) -> Result<Option<ObjClassName>> {
+		failing::tick("map_class_fail")?;
 		match self.spec.classes.get(&s(class.as_inner())) {
 			Some(Some(to)) => Ok(Some(ObjClassName::try_from(JavaString::from(to.as_str()))?)),
 			_ => Ok(None),
@@ -125,12 +160,14 @@ impl ARemapper for Table {
 
 impl BRemapper for Table {
 	fn map_field_fail(&self, owner: &ObjClassNameSlice, name: &FieldNameSlice, desc: &FieldDescriptorSlice) -> Result<Option<FieldNameAndDesc>> {
+		failing::tick("map_field_fail")?;
 		match self.find(&self.spec.fields, &s(owner.as_inner()), &s(name.as_inner()), &s(desc.as_inner()), 0) {
 			Some(to) => Ok(Some(FieldNameAndDesc { name: FieldName::try_from(JavaString::from(to.as_str()))?, desc: self.map_field_desc(desc)? })),
 			None => Ok(None),
 		}
 	}
 	fn map_method_fail(&self, owner: &ObjClassNameSlice, name: &MethodNameSlice, desc: &MethodDescriptorSlice) -> Result<Option<MethodNameAndDesc>> {
+		failing::tick("map_method_fail")?;
 		match self.find(&self.spec.methods, &s(owner.as_inner()), &s(name.as_inner()), &s(desc.as_inner()), 0) {
 			Some(to) => Ok(Some(MethodNameAndDesc { name: MethodName::try_from(JavaString::from(to.as_str()))?, desc: self.map_method_desc(desc)? })),
 			None => Ok(None),
